@@ -9,8 +9,12 @@ open Netpoll.Race
 
 def main : IO Unit := do
   for (f, fn, k) in Netpoll.Gen.accesses do
-    let d := match policy f with | some d => d.name | none => "-"
-    let good := ok (f, fn, k)
+    let d0 := match policy f with | some d => d.name | none => "-"
+    let lex := lexMissing Netpoll.Gen.lexHeld (f, fn, k)
+    let d := match lex with
+      | some l => d0 ++ s!"(not-lexically-inside-{l.goName.str})"
+      | none => d0
+    let good := ok (f, fn, k) && lex.isNone
     IO.println s!"{f.str}\t{fn.str}\t{k.toString}\t{d}\t{if good then "ok" else "BAD"}"
   -- policy entries whose field no longer occurs in the table (stale, harmless)
   for (n, _) in policyTab do
